@@ -297,4 +297,15 @@ def run(c, facts, tier):
         bool(tg_) and tg_ <= {"@0", WRAP_} and not unk_,
         "compile() hands %s to the code generator%s; a rewritten tree is a translation step outside the per-variant tables" % (sorted(tg_), ("; constructs not understood: %s" % unk_[:2]) if unk_ else ""),
     )
+    # C02.input (premise): "the same outputs as evaluating the expression" includes the implicit print — added exactly when the
+    # tree holds no action (C09 decides the detection and the wrap; a wrong answer writes a file twice or not at all)
+    from .. import report as _rep2
+
+    _rep2.require(c, facts, "c09", "C02.input", "scheme::compile", "the implicit print is added exactly when the expression holds no action", lambda o: o["rule"] in ("C09.detect", "C09.wrap", "C09.default"), "which outputs the policy adds on its own is decided by the C09 rules (action detection by induction, wrap = And(whole, DefaultPrint))")
+    # C02.printer (types): an action writes "what it names" — its own destination with its own terminator — only if the printer
+    # registry tells (destination, terminator) pairs apart: equality and hash of the key types are the derived ones
+    from .. import valuetraits as _vt
+
+    kp_ = _vt.key_problems(facts)
+    c.ob("C02.printer", "printer registry", "requests for different (destination, terminator) pairs are told apart (key types derive ==/hash)", not kp_, "key types: %s%s" % (sorted(_vt.key_types(facts)), ("; NOT derived: %s" % kp_) if kp_ else ""), witness="-fprint f -fprint0 f" if kp_ else None)
     c.control("C02.cmp", CMP["GreaterThan"] == ">" and CMP["LesserThan"] == "<", "operator table distinguishes > and <")
